@@ -209,3 +209,21 @@ def check_coupling(cx, facts, rep):
                         'when %s and %s are both educed the %s handler leaves fields and variants to %s, but this %s scanner has no branch for Trait::%s: '
                         'a `#[educe(%s…)]` attribute on a field or variant is silently accepted instead of being rejected (or honoured)' % (C, P, C, P, P, C, C),
                         sc.fn.file, sc.fn.line)
+
+
+def include_own_scanners(cx, facts, rep, needles, floor=8):
+    """the per-field/variant attributes a summary relies on are read by this trait's own scanners: re-evaluate SCAN for them"""
+    from ..report import Report as _R
+    sub = _R(rep.prop)
+    check_scanners(cx, facts, sub)
+    for fnd in sub.findings:
+        if any(n in fnd.where for n in needles):
+            if not any(x.key == fnd.key for x in rep.findings):
+                rep.findings.append(fnd)
+    k = 0
+    for r, i, v in sub.checked:
+        if any(n in i for n in needles):
+            rep.checked.append((r, i, v))
+            k += 1
+    rep.counts['SCAN'] = rep.counts.get('SCAN', 0) + k
+    rep.floor('SCAN', floor)
